@@ -1,5 +1,6 @@
 import SV.Wire
 import SV.Spec.C02
+import SV.Spec.C02Explicit
 import SV.Spec.JsonSchemaWire
 open SV SV.Wire SV.Model.C02 SV.Spec.C02 SV.Spec.JsonSchema
 
@@ -92,6 +93,43 @@ def tableLookup (tbl : List (Loc × Bool)) (l : Loc) : Bool :=
   | some b => b
   | none => false
 
+/-- null | [[name, value], …] -/
+def decExplicitDict : Json → Except String (Option Dict)
+  | .null => .ok none
+  | j => do return some (← asPairs asStr (fun x => .ok x) j)
+
+/-- {"path": null|pairs, "header": …, "cookie": …, "query": …, "body": {"set": bool, "value": v}} -/
+def decExplicits (j : Json) : Except String Explicits := do
+  let b ← field j "body"
+  let set ← asBool (← field b "set")
+  return ⟨← decExplicitDict (optField j "path"), ← decExplicitDict (optField j "header"),
+          ← decExplicitDict (optField j "cookie"), ← decExplicitDict (optField j "query"),
+          if set then some (optField b "value") else none⟩
+
+def decReqs (j : Json) : Except String Reqs := do
+  return ⟨← asList asStr (← field j "path"), ← asList asStr (← field j "header"),
+          ← asList asStr (← field j "cookie"), ← asList asStr (← field j "query")⟩
+
+def decVariants (j : Json) : Except String Variants := do
+  return ⟨← decVariant (← field j "labels"), ← decVariant (← field j "exclusion"), ← decVariant (← field j "unchanged")⟩
+
+def encStrat : Strat → Json
+  | .none => .str "none"
+  | .factory m ps req => jobj [("factory", encMode m), ("props", .arr (ps.map fun p => .str p.name)),
+                               ("required", .arr (req.map .str))]
+
+def encOptValue : Option Json → Json
+  | some x => jobj [("set", .bool true), ("value", x)]
+  | none => jobj [("set", .bool false), ("value", .null)]
+
+def decBodyItemM : Json → Except String BodyItemM
+  | .arr [.bool c, .bool r, .bool k] => .ok ⟨⟨c, r⟩, k⟩
+  | _ => .error "bad body item (with custom flag)"
+
+def encBodyStrat : BodyStrat → Json
+  | .custom => .str "custom"
+  | .factory m b => jobj [("factory", encMode m), ("orAbsent", .bool b)]
+
 def decTable (j : Json) : Except String (List (Loc × Bool)) := asPairs decLoc asBool j
 
 def handle : Handler := fun op a => do
@@ -108,6 +146,41 @@ def handle : Handler := fun op a => do
                  ("negatable", .bool (negatable o)),
                  ("generators", .arr ((paramLocs.map fun l => .arr [encLoc l, encMode (generatorFor o mode l)]))),
                  ("bodyGenerator", match (bodyContainer o mode d).generator with | some g => encMode g | none => .null)]
+  | "labelsX" =>
+    -- {variants, op, reqs, explicit, only, mode, draws} → outcome, values, strategies (+ spec-side facts)
+    let vs ← decVariants (← field a "variants")
+    let o ← decOp (← field a "op")
+    let rq ← decReqs (← field a "reqs")
+    let ex ← decExplicits (← field a "explicit")
+    let only ← asBool (← field a "only")
+    let mode ← decMode (← field a "mode")
+    let d ← decDraws (← field a "draws")
+    let cs := containersX vs o ex mode d
+    return jobj [("outcome", encOutcome (openapiCasesX vs o ex only mode d)),
+                 ("values", .arr (cs.map fun c => .arr [encLoc c.loc, encOptValue c.value])),
+                 ("generators", .arr (cs.map fun c => .arr [encLoc c.loc, match c.generator with | some g => encMode g | none => .null])),
+                 ("strategies", .arr (paramLocs.map fun l => .arr [encLoc l, encStrat (strategyFor vs.exclusion o rq ex mode l)])),
+                 ("negatable", .bool (negatableX vs.exclusion o rq ex)),
+                 ("allSupplied", .arr (paramLocs.map fun l => .arr [encLoc l, .bool (allSupplied o ex l)])),
+                 ("negativeFactoryOk", .arr (paramLocs.map fun l => .arr [encLoc l, .bool (
+                    match strategyFor vs.exclusion o rq ex mode l with
+                    | .factory .negative rem _ => negatableParams l rem
+                    | _ => true)]))]
+  | "bodyStrat" =>
+    -- {variant, mode, items: [[canNeg, required, custom]]} → candidates, body generator, strategy per candidate
+    let v ← decVariant (← field a "variant")
+    let mode ← decMode (← field a "mode")
+    let items ← asList decBodyItemM (← field a "items")
+    let cg := bodyCandidatesM v mode items
+    return jobj [("generator", encMode cg.2),
+                 ("candidates", .arr (cg.1.map fun it => .arr [.bool it.item.canNeg, .bool it.item.required, .bool it.custom])),
+                 ("strategies", .arr (cg.1.map fun it => encBodyStrat (bodyStrategyM it cg.2))),
+                 ("negativeFromNegativeFactory", .bool (cg.2 != .negative ||
+                    cg.1.all fun it => bodyStrategyM it .negative == .factory .negative false))]
+  | "stratKey" =>
+    -- {factory, loc, exclude: [names]} → the cache key of get_parameters_strategy
+    let k := stratKey (← decMode (← field a "factory")) (← decLoc (← field a "loc")) (← asList asStr (← field a "exclude"))
+    return .arr [encMode k.factory, encLoc k.loc, .arr (k.exclude.map .str)]
   | "labelsSound" =>
     -- {mode, components: [[loc, mode]], present: [[loc, bool]], valid: [[loc, bool]], absentOk: [[loc, bool]]}
     let mode ← decMode (← field a "mode")
